@@ -43,6 +43,7 @@ def run(prop, tier, seed):
         sc = [s for s in scen if s["id"] == v["id"]]
         c.violation("%s in scenario %s (event %s)" % (v["tag"], v["id"], v["line"]), {"kind": "d-scenario", "tag": v["tag"], "scenario": sc[0] if sc else None})
     known = [f for f in common.known_findings()["findings"]]
+    targeted = 0
     for v in res["viol"]:
         if not v["tag"].startswith(OWN):
             continue
@@ -51,9 +52,14 @@ def run(prop, tier, seed):
         key = "C11:Isolation(%s)" % v["tag"]
         if key in seen or len(c.violations) >= 5:
             continue
-        seen.add(key)
-        sid = v["id"].rsplit("-tx", 1)[0]
+        sid, txs = v["id"].rsplit("-tx", 1)
         sc = [s for s in scen if s["id"] == sid]
+        # a forged / replayed PDU that carries the ids of THIS transaction belongs to it as far as any daemon can tell:
+        # it may change this transaction's outcome (C11 is about the OTHER transactions)
+        if sc and any("%d.%d" % (x["pdu"]["src"], x["pdu"]["seq"]) == txs for x in sc[0]["strays"]):
+            targeted += 1
+            continue
+        seen.add(key)
         c.violation("%s: transaction %s, step %d" % (key, v["id"], v["line"]),
                     {"kind": "d-scenario", "tag": key, "scenario": sc[0] if sc else None, "trace": dlevel.trace_of(os.path.join(c.work, "d"), v["id"])})
     for d in res["ddrift"][:5]:
@@ -68,6 +74,7 @@ def run(prop, tier, seed):
         "daemon_scenarios": res["scenarios"], "transactions_validated": res["runs"],
         "transaction_events": res["events"], "daemon_events": res["devents"],
         "drift_steps": len(res["drift"]) + len(res["ddrift"]),
+        "outcomes_changed_by_forged_pdus_with_the_transactions_own_ids": targeted,
         "tlc_invariants": ["IdsDistinct", "DaemonAlive", "RoutingSafe", "NoSendFromStray"],
         "constants": t,
         "rule": "MC_Daemon explored exhaustively (2 entities + a third source, 6 kinds of stray header); %d seeded scenarios with 2-3 real daemons, 5-9 overlapping "
